@@ -20,11 +20,28 @@ SITE = {
 }
 
 
-def gen_project(rng):
+# sites with TWO pending changes, one inside the node the other one removes (Model/SessionNest.v):
+#   kind -> (source line, [(category, removes, encloser index in this list or None, text that shows that the change was written)])
+NESTED = {
+    # fix deletes the entry "size"; the never-compared inner snapshot has a pending update
+    "nest_del": ('    assert {"name": "block"} == snapshot({"name": "block", "size": snapshot(1024 * 4)})',
+                 [("fix", True, None, 'snapshot({"name": "block"})'), ("update", True, 0, "snapshot(4096)")]),
+    # fix replaces the second element; the never-compared inner snapshot below it has a pending update
+    "nest_rep": ('    assert [1, "x"] == snapshot([1, {"k": snapshot(0o10)}])',
+                 [("fix", True, None, 'snapshot([1, "x"])'), ("update", True, 0, "snapshot(8)")]),
+}
+
+
+def gen_project(rng, nested=False):
     nfiles = rng.choice([2, 2, 3, 3, 4])
     files = []
     for _ in range(nfiles):
-        files.append([c for c in CATS if rng.random() < 0.45])
+        files.append([c for c in CATS if rng.random() < (0.3 if nested else 0.45)])
+    if nested:
+        for f in files:
+            f += [k for k in NESTED if rng.random() < 0.4]
+        if not any(k in NESTED for f in files for k in f):
+            files[rng.randrange(nfiles)].append(rng.choice(list(NESTED)))
     if not any(files):
         files[rng.randrange(nfiles)] = [rng.choice(CATS)]
     mode = rng.choice(["flags", "flags", "flags+report", "review", "none"])
@@ -40,13 +57,27 @@ def gen_project(rng):
 def sources(p):
     out = {}
     for i, cats in enumerate(p["files"]):
-        body = "".join(f"def test_{c}():\n{SITE[c][0]}\n\n\n" for c in cats) or "def test_nothing():\n    pass\n"
+        body = "".join(f"def test_{c}():\n{(SITE.get(c) or NESTED[c])[0]}\n\n\n" for c in cats) or "def test_nothing():\n    pass\n"
         out[f"test_f{i}.py"] = "from inline_snapshot import snapshot\n\n\n" + body
     return out
 
 
+def changes_of(p):
+    """the pending changes of the project: (id, category, file, removes, [enclosing ids], marker text, kind of site)"""
+    out = []
+    for i, kinds in enumerate(p["files"]):
+        for k in kinds:
+            if k in NESTED:
+                base = len(out)
+                for cat, rem, enc, marker in NESTED[k][1]:
+                    out.append((len(out), cat, i, rem, [] if enc is None else [base + enc], marker, k))
+            else:
+                out.append((len(out), k, i, True, [], SITE[k][1], k))
+    return out
+
+
 def shown_approved(p):
-    pend = {c for cats in p["files"] for c in cats}
+    pend = {c[1] for c in changes_of(p)}
     if p["mode"] == "review":
         shown = set(CATS)
         appr = {c for c in CATS if p["answers"][c]}
@@ -82,9 +113,11 @@ def run_project(p):
         obs = []
         for i, cats in enumerate(p["files"]):
             for c in cats:
-                obs.append((i, c, SITE[c][1] in after[f"test_f{i}.py"]))
+                if c in SITE:
+                    obs.append((i, c, SITE[c][1] in after[f"test_f{i}.py"]))
+        nobs = [(cid, marker in after[f"test_f{f}.py"]) for cid, cat, f, rem, enc, marker, k in changes_of(p)]
         reported = [c for c in CATS if f"{c.capitalize()} snapshots" in out]
-        return {"obs": obs, "reported": reported, "rc": r["rc"], "internal": "INTERNALERROR" in out, "tail": out[-1200:], "infra": r.get("infra_error")}
+        return {"obs": obs, "nobs": nobs, "reported": reported, "rc": r["rc"], "internal": "INTERNALERROR" in out, "tail": out[-1200:], "infra": r.get("infra_error")}
     finally:
         shutil.rmtree(d, ignore_errors=True)
 
@@ -93,6 +126,17 @@ def oracle(p, o):
     shown, appr, pend = shown_approved(p)
     if o["internal"] or o["rc"] not in (0, 1):
         return f"the session ended with an internal error / exit status {o['rc']}"
+    ch = changes_of(p)
+    for cid, written in o["nobs"]:
+        _, c, i, _, enc, _, k = ch[cid]
+        if k not in NESTED:
+            continue
+        if written and c not in appr:
+            return f"the {c} change of the {k} site in test_f{i}.py was written although {c} is not approved (flags {p['flags']}, mode {p['mode']})"
+        # C04: exactly the approved categories apply - a change inside a node that only a NOT approved change would remove is written like any other
+        if c in appr and c in shown and not written and not any(ch[e][1] in appr for e in enc):
+            return (f"{c} is approved and shown (flags {p['flags']}, mode {p['mode']}), the {c} change of the {k} site in test_f{i}.py lies inside a node that only the "
+                    f"not approved category {[ch[e][1] for e in enc]} would remove, but it was not written")
     for i, c, written in o["obs"]:
         if written and c not in appr:
             return f"the {c} change of test_f{i}.py was written although {c} is not approved (flags {p['flags']}, mode {p['mode']})"
@@ -108,6 +152,36 @@ def g_case(p, o):
     return g_pair(g_list([c for c in CATS if c in shown], GCAT.get), g_list([c for c in CATS if c in appr], GCAT.get),
                   g_list(pending, lambda x: g_pair(GCAT[x[0]], g_nat(x[1]))),
                   g_list(o["obs"], lambda x: f"({g_nat(x[0])}, {GCAT[x[1]]}, {g_bool(x[2])})"), g_list(o["reported"], GCAT.get))
+
+
+def g_ncase(p, o):
+    shown, appr, _ = shown_approved(p)
+    return g_pair(g_list([c for c in CATS if c in shown], GCAT.get), g_list([c for c in CATS if c in appr], GCAT.get),
+                  g_list(changes_of(p), lambda x: f"({g_nat(x[0])}, {GCAT[x[1]]}, {g_nat(x[2])}, {g_bool(x[3])}, {g_list(x[4], g_nat)})"),
+                  g_list(o["nobs"], lambda x: f"({g_nat(x[0])}, {g_bool(x[1])})"), g_list(o["reported"], GCAT.get))
+
+
+def check_nested(ctx, n, label):
+    """sessions whose pending changes include changes inside a node that a change of another category removes, vs Model/SessionNest.v"""
+    from .core import coq_eval_shards, tmap
+    ps = [gen_project(ctx.rng, nested=True) for _ in range(n)]
+    terms, idx = [], []
+    for k, (p, o) in enumerate(zip(ps, tmap(run_project, ps))):
+        ctx.count(("sessnest", repr(p)), True)
+        ctx.dist("nestloop.mode=" + p["mode"])
+        if o.get("infra"):
+            continue
+        why = oracle(p, o)
+        if why:
+            ctx.report(f"{label} oracle (approval loop, nested changes): {why}", {"kind": "sessloop", "project": p, "output": o["tail"]})
+            continue
+        terms.append(g_ncase(p, o))
+        idx.append(k)
+    bad = coq_eval_shards(ctx, "sessnest", "Model.SnapOps Model.Session Model.SessionNest Corr.SessionNestCorr", "ncase", terms, "mismatchesN")
+    ctx.coverage["traces_validated_against_impl"] += len(terms)
+    ctx.coverage["correspondence"]["approval_loop_nested_changes"] = {"sessions": len(terms), "mismatches": len(bad)}
+    for j in bad[:5]:
+        ctx.report(f"Model/SessionNest.v and the real session differ (oracle silent): {ps[idx[j]]}", {"kind": "sessloop", "project": ps[idx[j]]}, no_input=True, kind="correspondence")
 
 
 def check_part(ctx, n, label):
